@@ -160,6 +160,7 @@ def run(chk):
     # ---- WD rows and lifetime rows: nearest value ---------------------------------
     wd = np.loadtxt(os.path.join(DATA, "sevtables", "wdifmr.dat"))
     ms = np.loadtxt(os.path.join(DATA, "sevtables", "msto.dat"))
+    real_loadtxt = np.loadtxt
     old = emf.EvolvedMF._evolve
     emf.EvolvedMF._evolve = lambda self: None
     nrow = 0
@@ -185,6 +186,23 @@ def run(chk):
                 from ssptools.masses import PowerLawIMF
                 with U.fake_ode(lambda t_, y0_: y0_):
                     pop = emf.InitialBHPopulation.from_IMF(PowerLawIMF([0.1, 0.5, 1.0, 100], [-0.5, -1.3, -2.5], N0=1e5), [1, 1, 4], x, natal_kicks=False)
+                # ... and with natal kicks the fallback fractions must come from the table of the REQUESTED metallicity (BH grid, 0.01 dex),
+                # not from the lifetime row's: every uSSE_rapid table opened during the construction is that nearest one
+                def flow_bh_(t_, y0_):
+                    y_ = np.array(y0_, dtype=float)
+                    n_ = (len(y_) - 6) // 2
+                    y_[6:6 + n_] = 5.0
+                    y_[6 + n_:] = 100.0
+                    return y_
+                opened_k = []
+                with U.fake_ode(flow_bh_), U.patched(np, "loadtxt", lambda p_, *a_, **k_: (opened_k.append(str(p_)), real_loadtxt(p_, *a_, **k_))[1]):
+                    emf.InitialBHPopulation.from_IMF(PowerLawIMF([0.1, 0.5, 1.0, 100], [-0.5, -1.3, -2.5], N0=1e5), [1, 1, 4], x, natal_kicks=True)
+                tabs_ = sorted(set(re.search(r"IFMR_FEH([+-]\d+\.\d\d)\.dat", p_).group(1) for p_ in opened_k if "uSSE_rapid" in p_))
+                ls_b, neg_b, pos_b = grids["banerjee20"]
+                chk.count("BH-population constructions with kicks: tables opened")
+                if len(opened_k) < 4 or len(tabs_) != 1 or not nearest_ok(x, int(round(float(tabs_[0]) * 100)), -neg_b, pos_b):
+                    chk.fail("kick fallback fractions come from the same nearest table", dict(FeH=x, through="InitialBHPopulation.from_IMF(natal_kicks=True)"),
+                             dict(tables_opened=tabs_, files=len(opened_k)))
                 k0 = int(np.argmin(np.abs(ms[:, 0] - x)))
                 a0_, a1_, a2_ = ms[k0, 1:]
                 want_age = a0_ * math.exp(a1_ * (obj.BH_mi.lower + 0.1) ** a2_)
